@@ -55,8 +55,47 @@ def second(cacher, key, kind, in_getter, go, out):
     out.put(('second', 'getter_calls', box.get('getter_calls', 0)))
 
 
+class RealUser:
+    """Filter run by the workers of the real CobaMultiprocessor: populate/read one key through the cacher the worker was given."""
+    def __init__(self, key, journal): self.key, self.journal = key, journal
+
+    def filter(self, item):
+        from coba.context import CobaContext
+        def getter():
+            with open(self.journal, 'a') as f: f.write(f'start {os.getpid()}\n')
+            yield LINES[0]
+            time.sleep(2.5)
+            yield LINES[1]
+            yield LINES[2]
+            with open(self.journal, 'a') as f: f.write(f'end {os.getpid()}\n')
+        try:
+            with CobaContext.cacher.get_set(self.key, getter) as f:
+                yield [item, 'value', [l.rstrip('\n') for l in f]]
+        except Exception as e:      # noqa
+            yield [item, 'raised', type(e).__name__ + ': ' + str(e)[:80]]
+
+
+def main_wired(spec):
+    """Both callers are workers of the real CobaMultiprocessor on a real DiskCacher directory."""
+    from coba.context import CobaContext, DiskCacher, BasicLogger
+    from coba.pipes import ListSink
+    from coba.multiprocessing import CobaMultiprocessor
+    d = tempfile.mkdtemp(prefix='vf-realcache-')
+    try:
+        journal = os.path.join(d, 'journal.txt')
+        CobaContext.logger = BasicLogger(ListSink()); CobaContext.cacher = DiskCacher(os.path.join(d, 'cache')); CobaContext.store = {}
+        os.makedirs(os.path.join(d, 'cache'), exist_ok=True)
+        got = list(CobaMultiprocessor(RealUser(spec['key'], journal), 2, 0).filter([0, 1]))
+        jl = open(journal).read().split('\n') if os.path.exists(journal) else []
+        print('OBS ' + json.dumps({'wired': sorted(got, key=str), 'starts': sum(1 for l in jl if l.startswith('start')), 'ends': sum(1 for l in jl if l.startswith('end')),
+                                   'log': [str(x)[:120] for x in CobaContext.logger.sink.items][:4]}))
+    finally:
+        shutil.rmtree(d, ignore_errors=True)
+
+
 def main():
     spec = json.loads(sys.argv[1])
+    if spec.get('second') == 'wired': return main_wired(spec)
     key, kind = spec['key'], spec.get('second', 'get')
     from coba.context import ConcurrentCacher, DiskCacher
     d = tempfile.mkdtemp(prefix='vf-realcache-')
